@@ -170,10 +170,30 @@ func TestC15FaultInjection(t *testing.T) {
 		}
 		injected, hits := 0, 0
 		for _, ev := range events {
+			type plan struct {
+				en              syscall.Errno
+				thenName        string
+				thenNth, thenEn int
+			}
+			var plans []plan
 			for _, en := range errnosFor[ev.Name] {
+				plans = append(plans, plan{en: en})
+			}
+			if ev.Name == "renameat" {
+				// the move into place is refused because the work area is on another file system -- and whatever the code tries
+				// instead meets a full disk / an I/O error (a second fault, addressed by call name and count after the first)
+				plans = append(plans, plan{en: syscall.EXDEV})
+				for _, tn := range []string{"write", "copy_file_range", "sendfile", "openat", "fsync", "renameat"} {
+					for nth := 1; nth <= 2; nth++ {
+						plans = append(plans, plan{syscall.EXDEV, tn, nth, int(syscall.ENOSPC)})
+					}
+				}
+			}
+			for _, pl := range plans {
+				en := pl.en
 				s := mk()
 				rel := func(p string) string { return strings.TrimPrefix(p, s0.root) }
-				inj := &Injection{Op: 0, Event: ev.Seq, Errno: int(en), Name: ev.Name}
+				inj := &Injection{Op: 0, Event: ev.Seq, Errno: int(en), Name: ev.Name, ThenName: pl.thenName, ThenNth: pl.thenNth, ThenErrno: pl.thenEn}
 				// the process (same store handle) goes on after the fault: an add of an unrelated new user follows
 				follow := Op{Kind: "add", User: "zz-follow", PW: "after-the-fault"}
 				res, out, err := s.trace([]Op{c.Op, follow}, inj, true)
@@ -187,6 +207,11 @@ func TestC15FaultInjection(t *testing.T) {
 					s.cleanup()
 					continue
 				}
+				if pl.thenName != "" && !res.ThenHit {
+					vlib.Class("second-fault-not-reached(the operation gave up before)")
+					s.cleanup()
+					continue
+				}
 				hits++
 				vlib.Eval()
 				op := res.Ops[0]
@@ -196,6 +221,10 @@ func TestC15FaultInjection(t *testing.T) {
 					}
 					return ""
 				}())
+				if pl.thenName != "" {
+					ctx += fmt.Sprintf(" and then %s #%d after it -> %v", pl.thenName, pl.thenNth, syscall.Errno(pl.thenEn))
+					vlib.Class("two-faults:EXDEV-then-" + pl.thenName)
+				}
 				if res.ExitCode != 0 || res.Signal != 0 || len(out) != 2 {
 					s.cleanup()
 					t.Fatalf("VIOLATION C15: the process died (exit %d, signal %d) instead of reporting an error; %s", res.ExitCode, res.Signal, ctx)
